@@ -25,12 +25,13 @@ def add_squared_weights(resp, survey, aliases):
     return resp
 
 
-def overlap_tensors(survey, aliases, weighted):
+def overlap_tensors(survey, aliases, weighted, about=None):
     """(shape, overlap, valid_overlap) flat row-major tensors of shape cube_shape + (n_items,)
-    for a cube whose LAST variable is an MR: cell [.., a, s, b] counts the respondents of the
-    cube cell (.., a, s) that selected item b (overlap) / have a non-missing item b (valid)."""
+    for the MR variable `about` of the cube (default: its LAST variable): cell [.., b] counts the
+    respondents of the cube cell (..) that selected item b of that MR (overlap) / have a
+    non-missing item b (valid).  The extra axis always comes last, whichever dimension the MR is."""
     vs = [survey.var(a) for a in aliases]
-    mr = vs[-1]
+    mr = vs[-1] if about is None else survey.var(about)
     assert mr.kind == "mr"
     n_items = len(mr.items)
     shape = tuple(itertools.chain.from_iterable(gen.var_shape(v) for v in vs)) + (n_items,)
@@ -59,9 +60,12 @@ def overlap_tensors(survey, aliases, weighted):
     return shape, ov, vo
 
 
-def add_overlaps(resp, survey, aliases, weighted):
-    _shape, ov, vo = overlap_tensors(survey, aliases, weighted)
-    mr = survey.var(aliases[-1])
+def add_overlaps(resp, survey, aliases, weighted, about=None):
+    """`overlap` / `valid_overlap` measures of the MR variable `about` (default: the columns MR).
+    A client that always requests them gets them for an MR on the ROWS of an MR x CAT table too;
+    only MR COLUMNS can overlap, so the library must then keep the ordinary two-proportion test."""
+    _shape, ov, vo = overlap_tensors(survey, aliases, weighted, about)
+    mr = survey.var(aliases[-1] if about is None else about)
     md = {"derived": True,
           "references": {"alias": mr.alias, "name": mr.name,
                          "subreferences": [{"alias": it["alias"], "name": it["name"]} for it in mr.items]},
